@@ -32,14 +32,8 @@ theorem env_names_injective :
     ∀ p ∈ prefixes, ∀ q ∈ prefixes, ∀ f ∈ flagNames, ∀ g ∈ flagNames, envName p f = envName q g → p = q ∧ f = g :=
   env_names_injective_generic prefixes flagNames (by unfold noCollision; rw [mangled_table]; exact mangled_distinct)
 
-/-- `ParseFlags`: command line first, the environment map, marking what the command line set, and per flag:
-skip if set, environment (prefixes in list order), then properties. -/
-theorem parse_order :
-    parseOrder = ["cmdline", "env-map", "mark-cmdline-set", "skip-if-set", "env", "props"] := by decide
-
-/-- the environment-variable name is `ToUpper(prefix + Replace(name, ".", "_"))`, looked up in a map keyed by
-`ToUpper(entry name)` (recognised by callee names and argument literals, not by variable names) -/
-theorem env_name_mangling : envNameUpperCased = true ∧ envNameDotsReplaced = true ∧ envKeyUpperCased = true := by decide
+-- `parse_order` and `env_name_mangling` (shape of the sequential code of `ParseFlags`) are change detectors:
+-- `Props/C15Pins.lean`.
 /-- an environment entry without `=` is guarded before the second part of the split is read (D20) -/
 theorem env_entry_guarded :
     ("@strings.SplitN[1]", "exit-if len(@strings.SplitN) != 2") ∈ indexGuards := by decide
